@@ -39,3 +39,24 @@ func (ps *PeerSync) VerifCapabilityIsStale(peer *Peer, now time.Time) bool {
 func (ps *PeerSync) VerifIntervals() (time.Duration, time.Duration, time.Duration) {
 	return ps.requestPollInterval, ps.cleanupTimeout, ps.logic.pollInterval
 }
+
+// VerifShiftClock makes all in-memory request timestamps of the poller d older, as if d had passed.
+// (Stored peer timestamps are shifted by the harness through the store.)
+func (ps *PeerSync) VerifShiftClock(d time.Duration) {
+	ps.poller.mu.Lock()
+	defer ps.poller.mu.Unlock()
+	for id, t := range ps.poller.lastRequestedAt {
+		ps.poller.lastRequestedAt[id] = t.Add(-d)
+	}
+}
+
+// VerifRequestTimes returns the peers the poller currently holds a request timestamp for.
+func (ps *PeerSync) VerifRequestTimes() map[string]time.Time {
+	ps.poller.mu.Lock()
+	defer ps.poller.mu.Unlock()
+	out := map[string]time.Time{}
+	for id, t := range ps.poller.lastRequestedAt {
+		out[id.String()] = t
+	}
+	return out
+}
